@@ -58,9 +58,23 @@ where
 
     /// Resolves a relative offset (relative to another TextSelection) to an absolute one (in terms of to the underlying TextResource)
     fn absolute_offset(&'slf self, offset: &Offset) -> Result<Offset, StamError> {
+        let begin = self.beginaligned_cursor(&offset.begin)?;
+        let end = self.beginaligned_cursor(&offset.end)?;
+        if end > self.textlen() {
+            return Err(StamError::CursorOutOfBounds(
+                offset.end,
+                "End cursor is out of bounds",
+            ));
+        } else if end < begin {
+            return Err(StamError::InvalidOffset(
+                offset.begin,
+                offset.end,
+                "End must be greater than or equal to begin",
+            ));
+        }
         Ok(Offset::simple(
-            self.absolute_cursor(self.beginaligned_cursor(&offset.begin)?),
-            self.absolute_cursor(self.beginaligned_cursor(&offset.end)?),
+            self.absolute_cursor(begin),
+            self.absolute_cursor(end),
         ))
     }
 
